@@ -213,10 +213,34 @@ theorem play_complete (comb : α → α → α) (d : Nat) (cur : List α) (idx :
 def Injective2 (comb : α → α → α) : Prop :=
   ∀ a b c d, comb a b = comb c d → a = c ∧ b = d
 
-/-- Soundness: if playback of *any* value with *any* proof ends in a node of the target row,
-the value is the committed node and the proof starts with the honest proof. -/
-theorem play_sound (comb : α → α → α) (hinj : Injective2 comb) (d : Nat) (cur : List α)
+/-- Collision freeness relative to a class `D` of "well-formed digests": a pair of which at
+least one component is well formed is never identified with a different pair of well-formed
+digests.  This is what a collision-free hash of the *unframed* concatenation `a ‖ b`
+(`concat_and_hash`) gives when `D` = "has the digest length": the split point of `a ‖ b` is
+determined as soon as one side has the digest length.  (`Injective2` on all byte strings is
+false for such a `comb`: `(a ‖ x) ‖ b = a ‖ (x ‖ b)`.) -/
+def InjectiveOn2 (D : α → Prop) (comb : α → α → α) : Prop :=
+  ∀ a b c d, D c → D d → (D a ∨ D b) → comb a b = comb c d → a = c ∧ b = d
+
+theorem nextLayer_forall (comb : α → α → α) (D : α → Prop) (hD : ∀ a b, D (comb a b))
+    (l : List α) (hl : ∀ x ∈ l, D x) : ∀ x ∈ nextLayer comb l, D x := by
+  fun_induction nextLayer comb l with
+  | case1 a b rest ih =>
+    intro x hx
+    simp only [List.mem_cons] at hx
+    rcases hx with rfl | hx
+    · exact hD _ _
+    · exact ih (fun y hy => hl y (by simp [hy])) x hx
+  | case2 a => exact hl
+  | case3 => exact hl
+
+/-- Soundness: if playback of a well-formed value with *any* proof (elements of any shape)
+ends in a node of the target row, the value is the committed node and the proof starts with
+the honest proof. -/
+theorem play_sound_on (comb : α → α → α) (D : α → Prop) (hD : ∀ a b, D (comb a b))
+    (hinj : InjectiveOn2 D comb) (d : Nat) (cur : List α)
     (idx : Nat) (v : α) (p : List α) (j : Nat) (h : α) (hlt : idx < cur.length)
+    (hcur : ∀ x ∈ cur, D x) (hv : D v)
     (hplay : playProof comb (layout cur.length) (rowAt comb cur d).length idx v p = some (j, h))
     (hrow : (rowAt comb cur d)[j]? = some h) :
     cur[idx]? = some v ∧ proofGo (genTree comb cur) idx d <+: p := by
@@ -244,6 +268,7 @@ theorem play_sound (comb : α → α → α) (hinj : Injective2 comb) (d : Nat) 
         omega
       have hlt2 : idx / 2 < (nextLayer comb cur).length := by
         rw [nextLayer_length']; omega
+      have hnl := nextLayer_forall comb D hD cur hcur
       have hv0 : cur[idx]? = some cur[idx] := by simp [hlt]
       rw [hrw] at hplay hrow
       rw [layout_big _ hb, ← nextLayer_length comb cur] at hplay
@@ -261,9 +286,11 @@ theorem play_sound (comb : α → α → α) (hinj : Injective2 comb) (d : Nat) 
         | nil => simp [playProof, hne, hodd, hl] at hplay
         | cons x ps =>
           simp only [playProof, hne, if_false, hodd, if_true, hl] at hplay
-          obtain ⟨h1, h2⟩ := ih (nextLayer comb cur) (idx / 2) (comb x v) ps hlt2 hplay hrow
+          obtain ⟨h1, h2⟩ :=
+            ih (nextLayer comb cur) (idx / 2) (comb x v) ps hlt2 hnl (hD _ _) hplay hrow
           rw [hnext] at h1
-          obtain ⟨rfl, rfl⟩ := hinj _ _ _ _ (Option.some.inj h1)
+          obtain ⟨rfl, rfl⟩ := hinj _ _ _ _ (hcur _ (List.getElem_mem hl))
+            (hcur _ (List.getElem_mem hlt)) (Or.inr hv) (Option.some.inj h1).symm
           refine ⟨hv0, ?_⟩
           simp only [proofGo, Nat.succ_ne_zero, if_false, hodd, if_true, Nat.add_sub_cancel, ha]
           exact List.cons_prefix_cons.mpr ⟨rfl, h2⟩
@@ -279,9 +306,11 @@ theorem play_sound (comb : α → α → α) (hinj : Injective2 comb) (d : Nat) 
           | nil => simp [playProof, hne, hodd, hs] at hplay
           | cons x ps =>
             simp only [playProof, hne, if_false, hodd, hs, if_true] at hplay
-            obtain ⟨h1, h2⟩ := ih (nextLayer comb cur) (idx / 2) (comb v x) ps hlt2 hplay hrow
+            obtain ⟨h1, h2⟩ :=
+              ih (nextLayer comb cur) (idx / 2) (comb v x) ps hlt2 hnl (hD _ _) hplay hrow
             rw [hnext] at h1
-            obtain ⟨rfl, rfl⟩ := hinj _ _ _ _ (Option.some.inj h1)
+            obtain ⟨rfl, rfl⟩ := hinj _ _ _ _ (hcur _ (List.getElem_mem hlt))
+              (hcur _ (List.getElem_mem hs)) (Or.inl hv) (Option.some.inj h1).symm
             refine ⟨hv0, ?_⟩
             simp only [proofGo, Nat.succ_ne_zero, if_false, hodd, Nat.add_sub_cancel, hbb]
             exact List.cons_prefix_cons.mpr ⟨rfl, h2⟩
@@ -294,7 +323,7 @@ theorem play_sound (comb : α → α → α) (hinj : Injective2 comb) (d : Nat) 
             · have : 2 * (idx / 2) + 1 = idx + 1 := by omega
               rw [this]; exact hbn
           simp only [playProof, hne, if_false, hodd, hs] at hplay
-          obtain ⟨h1, h2⟩ := ih (nextLayer comb cur) (idx / 2) v p hlt2 hplay hrow
+          obtain ⟨h1, h2⟩ := ih (nextLayer comb cur) (idx / 2) v p hlt2 hnl hv hplay hrow
           rw [hnext] at h1
           obtain rfl := Option.some.inj h1
           refine ⟨hv0, ?_⟩
@@ -311,5 +340,98 @@ theorem play_sound (comb : α → α → α) (hinj : Injective2 comb) (d : Nat) 
       subst h0
       have : cur[0 + 1]? = none := by apply List.getElem?_eq_none; omega
       simp [proofGo, this]
+
+/-- `play_sound_on` for a `comb` that is injective on all pairs. -/
+theorem play_sound (comb : α → α → α) (hinj : Injective2 comb) (d : Nat) (cur : List α)
+    (idx : Nat) (v : α) (p : List α) (j : Nat) (h : α) (hlt : idx < cur.length)
+    (hplay : playProof comb (layout cur.length) (rowAt comb cur d).length idx v p = some (j, h))
+    (hrow : (rowAt comb cur d)[j]? = some h) :
+    cur[idx]? = some v ∧ proofGo (genTree comb cur) idx d <+: p :=
+  play_sound_on comb (fun _ => True) (fun _ _ => trivial)
+    (fun a b c d _ _ _ h => hinj a b c d h) d cur idx v p j h hlt (fun _ _ => trivial) trivial
+    hplay hrow
+
+/-- Soundness of the *empty* proof, for every `comb` (no collision-freeness needed): if the
+playback of a value without any proof element ends in a node of the target row, no sibling was
+needed on the way (the generated proof is empty) and the value is the committed node — the
+node was carried up unchanged. -/
+theorem play_sound_nil (comb : α → α → α) (d : Nat) (cur : List α)
+    (idx : Nat) (v : α) (j : Nat) (h : α) (hlt : idx < cur.length)
+    (hplay : playProof comb (layout cur.length) (rowAt comb cur d).length idx v [] = some (j, h))
+    (hrow : (rowAt comb cur d)[j]? = some h) :
+    cur[idx]? = some v ∧ proofGo (genTree comb cur) idx d = [] := by
+  induction d generalizing cur idx with
+  | zero =>
+    have : playProof comb (layout cur.length) cur.length idx v [] = some (idx, v) := by
+      by_cases hb : 1 < cur.length
+      · rw [layout_big _ hb]; simp [playProof]
+      · rw [layout_small _ hb]; simp [playProof]
+    simp only [rowAt] at hplay hrow
+    rw [this] at hplay
+    simp only [Option.some.injEq, Prod.mk.injEq] at hplay
+    obtain ⟨rfl, rfl⟩ := hplay
+    refine ⟨hrow, ?_⟩
+    by_cases hb : 1 < cur.length
+    · rw [genTree_big comb cur hb]; simp [proofGo]
+    · rw [genTree_small comb cur hb]; simp [proofGo]
+  | succ d ih =>
+    by_cases hb : 1 < cur.length
+    · have hrw : (rowAt comb cur (d + 1)) = rowAt comb (nextLayer comb cur) d := by
+        simp [rowAt, hb]
+      have hne : ¬ cur.length = (rowAt comb (nextLayer comb cur) d).length := by
+        have := rowAt_length_le comb (nextLayer comb cur) d
+        rw [nextLayer_length'] at this
+        omega
+      have hlt2 : idx / 2 < (nextLayer comb cur).length := by
+        rw [nextLayer_length']; omega
+      have hv0 : cur[idx]? = some cur[idx] := by simp [hlt]
+      rw [hrw] at hplay hrow
+      rw [layout_big _ hb, ← nextLayer_length comb cur] at hplay
+      rw [genTree_big comb cur hb]
+      by_cases hodd : idx % 2 = 1
+      · have hl : idx - 1 < cur.length := by omega
+        simp [playProof, hne, hodd, hl] at hplay
+      · by_cases hs : idx + 1 < cur.length
+        · simp [playProof, hne, hodd, hs] at hplay
+        · have hbn : cur[idx + 1]? = none := by
+            apply List.getElem?_eq_none; omega
+          have hnext : (nextLayer comb cur)[idx / 2]? = some cur[idx] := by
+            apply nextLayer_promote
+            · have : 2 * (idx / 2) = idx := by omega
+              rw [this]; exact hv0
+            · have : 2 * (idx / 2) + 1 = idx + 1 := by omega
+              rw [this]; exact hbn
+          simp only [playProof, hne, if_false, hodd, hs] at hplay
+          obtain ⟨h1, h2⟩ := ih (nextLayer comb cur) (idx / 2) hlt2 hplay hrow
+          rw [hnext] at h1
+          obtain rfl := Option.some.inj h1
+          refine ⟨hv0, ?_⟩
+          simp only [proofGo, Nat.succ_ne_zero, if_false, hodd, Nat.add_sub_cancel, hbn]
+          exact h2
+    · have hrw : (rowAt comb cur (d + 1)) = cur := by simp [rowAt, hb]
+      rw [hrw] at hplay hrow
+      rw [layout_small _ hb] at hplay
+      simp only [playProof, if_true, Option.some.injEq, Prod.mk.injEq] at hplay
+      obtain ⟨rfl, rfl⟩ := hplay
+      refine ⟨hrow, ?_⟩
+      rw [genTree_small comb cur hb]
+      have h0 : idx = 0 := by omega
+      subst h0
+      have : cur[0 + 1]? = none := by apply List.getElem?_eq_none; omega
+      simp [proofGo, this]
+
+/-- Refinement of the two loops of `check_merkle_tree`: the (repaired) `None` loop is the
+`Some` loop run on the empty proof; the running hash is never changed. -/
+theorem playProof_nil (comb : α → α → α) (layers : List Nat) (rowLen idx : Nat) (v : α) :
+    playProof comb layers rowLen idx v [] = (playEmpty layers rowLen idx).map fun j => (j, v) := by
+  induction layers generalizing idx with
+  | nil => simp [playProof, playEmpty]
+  | cons layer rest ih =>
+    simp only [playProof, playEmpty]
+    split
+    · simp
+    · split
+      · split <;> simp [ih]
+      · split <;> simp [ih]
 
 end C2pa.C16
